@@ -86,6 +86,7 @@ def _scn_summary(scn):
         "time_chunks": scn.get("time_chunks"),
         "secondary_backing": scn.get("secondary_backing"),
         "secondary_chunks": scn.get("secondary_chunks"),
+        "pipe": scn.get("pipe"),
     }
 
 
@@ -170,6 +171,9 @@ def gen_A(key, op):
             if op == "zonal_mean":
                 scn["params"]["name"] = p2["params"]["name"] = "zm"
         scn["pair"] = p2
+    elif r < 0.70 and op != "dekad" and not runner.relaxed(scn):
+        # O11: the lazy cube has an upstream history and/or the result feeds a downstream consumer
+        scn["pipe"] = S.gen_pipe(rng, scn)
     cfg = runner.gen_config(rng)
     return rng, scn, cfg
 
@@ -499,7 +503,11 @@ def job_op(job):
                 {"workload": "A", "key": key, "scenario": _scn_summary(scn), "config": cfg, "tape_head": rr.tape[:40], "tape_len": len(rr.tape), "steps": rr.steps, "tasks": rr.ntasks, "outcome": rr.outcome, "digest": rr.digest}
             )
         # O5 on a sample of runs (pure, but part of the property's statement)
-        if not rr.violations and rng.random() < 0.5 and not scn.get("time_chunks"):
+        if scn.get("pipe"):
+            agg.bump("probes", "pipeline_runs")
+            agg.bump("probes", f"pipeline_pre:{scn["pipe"].get("pre")}")
+            agg.bump("probes", f"pipeline_post:{scn["pipe"].get("post")}")
+        if not rr.violations and rng.random() < 0.5 and not scn.get("time_chunks") and not (scn.get("pipe") or {}).get("post"):
             try:
                 ev = check_equivariance(scn, rng, cache)
             except Exception as e:  # noqa: BLE001
